@@ -266,8 +266,10 @@ DoTimeout(S, a) ==
     LET k == PKey(a) IN
     IF ~(HasPk(S, k) /\ EndChain(a.e) = a.c) THEN Err(S, a)
     ELSE LET p == S.pk[k] IN
-         IF ~p.com THEN Noop(S, a)
-         ELSE IF ~Expired(S, p) \/ p.rcv THEN Err(S, a)
+         \* (packet layer order: the timeout must have elapsed, then a missing commitment is a no-op, then non-receipt)
+         IF ~Expired(S, p) THEN Err(S, a)
+         ELSE IF ~p.com THEN Noop(S, a)
+         ELSE IF p.rcv THEN Err(S, a)
          ELSE Ok(S, a, [RefundEffect(S, a.c, p) EXCEPT !.pk[k].com = FALSE])
 
 Step(S, a) ==
@@ -294,20 +296,25 @@ DenomsOf(S) ==
             \cup { { S.pk[k].denom : k \in DOMAIN S.pk } } )
 Universe(S) == UNION { Unwinds(D) : D \in { X \in DenomsOf(S) : "?" \notin { X.tr[i] : i \in DOMAIN X.tr } } }
 
-AmtInFlight(S, e, D) ==
-    LET K == { k \in DOMAIN S.pk : S.pk[k].e = e /\ S.pk[k].denom = D /\ InFlight(S.pk[k]) }
+\* keys of the packets whose tokens are neither delivered nor refunded yet
+InFlightKeys(S) == { k \in DOMAIN S.pk : InFlight(S.pk[k]) }
+AmtInFlightF(S, F, e, D) ==
+    LET K == { k \in F : S.pk[k].e = e /\ S.pk[k].denom = D }
     IN SumOver([k \in K |-> S.pk[k].amt], K)
+AmtInFlight(S, e, D) == AmtInFlightF(S, InFlightKeys(S), e, D)
 
 \* C30 (Appendix B.3 of DESIGN.md), for the end e of chain X, its peer e2 on chain Y and any denomination D on X:
 \*   escrow(e, D) = vouchers of D via e circulating on Y + in flight X->Y + in flight Y->X + plain bank gifts
-ConservationAt(S, e, D) ==
+ConservationAtF(S, F, e, D) ==
     LET X == EndChain(e)  e2 == Peer(e)  Y == EndChain(Peer(e))  V == Prefixed(e2, D) IN
     Bal(S, X, EscAcct(e), D) = Sup(S, Y, V)
-                               + (IF Returning(D, e) THEN 0 ELSE AmtInFlight(S, e, D))   \* a returning token is burnt, not escrowed
-                               + AmtInFlight(S, e2, V)
+                               + (IF Returning(D, e) THEN 0 ELSE AmtInFlightF(S, F, e, D))   \* a returning token is burnt, not escrowed
+                               + AmtInFlightF(S, F, e2, V)
                                + Get(S.don[X], <<EscAcct(e), D>>)
+ConservationAt(S, e, D) == ConservationAtF(S, InFlightKeys(S), e, D)
 
-I_Conservation(S) == \A e \in Ends : \A D \in Universe(S) : ConservationAt(S, e, D)
+\* (the in-flight set and the universe are bound once through set binders)
+I_Conservation(S) == \A F \in { InFlightKeys(S) } : \A U \in { Universe(S) } : \A e \in Ends : \A D \in U : ConservationAtF(S, F, e, D)
 
 \* every unit of supply is in an account the model knows
 SumBal(S, c, D) == LET K == { k \in DOMAIN S.bal[c] : k[2] = D } IN SumOver([k \in K |-> S.bal[c][k]], K)
